@@ -1,5 +1,12 @@
 import DS.Model.Sym
+import DS.Model.Load
+import DS.Model.Sched
+import DS.Model.World
+import DS.Model.Orbit
+import DS.Model.Adp
 import DS.Gen.DIndex
+import DS.Model.Lattice
+import DS.Model.Expand
 /-!
 Line-protocol driver: one operation per input line, one canonical result line per operation.
 Used by the correspondence checks (harness/*.py).  No Mathlib import anywhere below this file.
@@ -24,12 +31,31 @@ def symHandle (ws : List String) : Option String :=
         if i.toNat < g.ops.length then some (showV ((getOp g.ops i.toNat).act k (x, y, z))) else some "bad-op"
       | none => some "no-such-sg"
     | _ => some "bad-op"
+  -- orbit <sgno> <k> <E> <ox oy oz> <x y z> : expandPosition on coordinates in units 1/(24k)
+  | "orbit" :: rest =>
+    match parseInts rest with
+    | some [n, k, e, ox, oy, oz, x, y, z] =>
+      match findSG n.toNat with
+      | some g =>
+        let (ps, cls, m) := Orbit.result g.ops k e (ox, oy, oz) (x, y, z)
+        let pstr := String.intercalate ";" (ps.map showV)
+        let cstr := String.intercalate ";" (cls.map (fun c =>
+          String.intercalate "," (c.map (fun a => toString (g.ops.idxOf a)))))
+        some s!"{m}|{pstr}|{cstr}"
+      | none => some "no-such-sg"
+    | _ => some "bad-op"
   | _ => none
 
 /-- REGISTER model handlers here: each returns `none` for commands it does not own.
 Command names are prefixed by the model (`sym.`, `lat.`, `adp.`, `stru.`, ...). -/
 def handlers : List (List String → Option String) :=
   [ symHandle
+  , DS.Load.loadHandle
+  , DS.Sched.schedHandle
+  , DS.World.worldHandle
+  , adpHandle
+  , latHandle
+  , DS.Expand.expandHandle
   ]
 
 def handle (ws : List String) : String :=
